@@ -155,6 +155,7 @@ TAG_ORDER = {
     "ind": 20,
     "mask": 21,
     "P": 30,
+    "R": 30,
     "abs": 31,
     "fn": 40,
     "u": 60,
@@ -501,15 +502,40 @@ def primitive(p):
 def _has_P_inv(p):
     for m in p.t:
         for a, e in m:
-            if a[0] == "P":
+            if a[0] == "P" or a[0] == "R":
                 return True
     return False
+
+
+def _fix_roots(p):
+    """R(q, den)^e with e outside [0, den): move whole powers of q out"""
+    changed = True
+    while changed:
+        changed = False
+        for m, c in list(p.t.items()):
+            for a, e in m:
+                if a[0] == "R" and (e >= a[2] or e < 0):
+                    whole = e // a[2]
+                    r = e - whole * a[2]
+                    rest = tuple((b, f) for b, f in m if b != a)
+                    d = dict(p.t)
+                    del d[m]
+                    term = Poly({rest: c}) * (a[1] ** whole)
+                    if r:
+                        term = term * Poly.atom(a, r)
+                    p = Poly(d) + term
+                    changed = True
+                    break
+            if changed:
+                break
+    return p
 
 
 def _post(p):
     """post-normalisation: expand positive integer powers of P atoms, reduce numerators modulo P bases"""
     if not _has_P_inv(p):
         return p
+    p = _fix_roots(p)
     # 1. expand P(q)^n, n positive integer
     changed = True
     while changed:
@@ -661,7 +687,7 @@ def _atom_nonneg(a):
         return a[-1] == "half"
     if t in ("abs", "exp", "ind", "mask"):
         return True
-    if t == "P":
+    if t in ("P", "R"):
         return bool(a[1].t) and all(_mono_nonneg(m) and c.im == 0 and c.re > 0 for m, c in a[1].t.items())
     return False
 
@@ -721,7 +747,15 @@ def rpow(p, e):
             return absval(b) ** (e * n)
         return b ** (e * n)
     c0, g, q = primitive(p)
-    return rpow(Poly({g: c0}), e) * Poly.atom(("P", q), e)
+    e = Fr(e)
+    ip = math.floor(e)
+    fr = e - ip
+    out = rpow(Poly({g: c0}), e) if (g or c0 != ONE) else Poly.const(1)
+    if ip:
+        out = out * (q**ip)
+    if fr:
+        out = out * Poly.atom(("R", q, fr.denominator), fr.numerator)
+    return out
 
 
 def perfect_root(q):
@@ -861,7 +895,7 @@ def atom_is_real(a):
         return a[-1] == "P"
     if t in COMPLEX_TAGS:
         return False
-    if t in ("P", "abs"):
+    if t in ("P", "abs", "R"):
         return t == "abs" or is_real(a[1])
     if t == "exp":
         return all(atom_is_real(b) for b, _ in a[1])
@@ -938,6 +972,9 @@ def map_atoms(p, f):
             if t == "P":
                 inner = map_atoms(a[1], f)
                 term = term * (Poly.atom(a, e) if inner == a[1] else inner**e)
+            elif t == "R":
+                inner = map_atoms(a[1], f)
+                term = term * (Poly.atom(a, e) if inner == a[1] else inner ** Fr(e, a[2]))
             elif t in ("exp", "expi"):
                 inner = map_atoms(Poly({a[1]: ONE}), f)
                 if inner == Poly({a[1]: ONE}):
@@ -1027,6 +1064,8 @@ def fmt_atom(a):
         return f"{a[1]}{a[2]}" + ("^" if a[3] == "F" else "")
     if t == "P":
         return f"[{fmt(a[1])}]"
+    if t == "R":
+        return f"root{a[2]}[{fmt(a[1])}]"
     if t in ("exp", "expi"):
         return f"{t}({fmt(Poly({a[1]: ONE}))})"
     if t == "ind":
@@ -1079,3 +1118,36 @@ def fmt(p):
 S = Poly.sym
 I = Poly.const(IMAG)
 PI = Poly.sym("pi")
+
+
+def conj_poly(p):
+    """complex conjugate for polynomials whose non-real atoms are expi(.) (unimodular), declared complex
+    scalars and spectrum atoms (the latter become explicit ('conj', atom) atoms)"""
+    out = Poly()
+    for m, c in p.t.items():
+        term = Poly.const(c.conj())
+        for a, e in m:
+            if a[0] == "expi":
+                term = term * Poly.atom(a, -e)
+            elif a[0] == "conj":
+                term = term * (a[1] ** e)
+            elif atom_is_real(a):
+                term = term * Poly.atom(a, e)
+            else:
+                term = term * Poly.atom(("conj", Poly.atom(a)), e)
+        out = out + term
+    return out
+
+
+def split_real_imag(p):
+    """p = re + i*im assuming every atom is real-valued; returns (re, im)"""
+    re, im = Poly(), Poly()
+    for m, c in p.t.items():
+        for a, _ in m:
+            if not atom_is_real(a):
+                raise AlgError(f"atom {fmt_atom(a)} is not known to be real")
+        if c.re != 0:
+            re = re + Poly({m: GQ(c.re)})
+        if c.im != 0:
+            im = im + Poly({m: GQ(c.im)})
+    return re, im
